@@ -50,26 +50,24 @@ Fixpoint digits (b : Z) (w : nat) (z : Z) : list Z :=
 (* base.Height.Bytes = util.Int64ToBigBytes: 8 bytes big endian *)
 Definition be8 (h : Z) : key := map Z.to_N (digits 256 8 h).
 
-(* base.Height.FixedString = fmt.Sprintf("%021d", h) for h >= 0 *)
-Definition dec_width : nat := Z.to_nat height_fixed_width.
-Definition dec21 (h : Z) : key := map (fun d => Z.to_N (48 + d)) (digits 10 dec_width h).
-
 Definition ascii_dash : N := 45%N.
+
+(* base.Height.FixedString = fmt.Sprintf("%021d", h) *)
+Definition dec_width : nat := Z.to_nat height_fixed_width.
+Definition dec21 (h : Z) : key :=
+  if Z.ltb h 0
+  then ascii_dash :: map (fun d => Z.to_N (48 + d)) (digits 10 (pred dec_width) (- h))   (* "-00..0d": the sign counts in the width *)
+  else map (fun d => Z.to_N (48 + d)) (digits 10 dec_width h).
+
 Definition nines (n : nat) : key := repeat 57%N n.
 
 (* Redis key names: prefix ++ "-" ++ FixedString *)
 Definition rkey (prefix : list N) (h : Z) : key := prefix ++ ascii_dash :: dec21 h.
-Definition rend (prefix : list N) : key := prefix ++ ascii_dash :: nines 20.   (* strings.Repeat("9", 20) *)
+Definition rend (prefix : list N) (n : Z) : key := prefix ++ ascii_dash :: nines (Z.to_nat n).   (* strings.Repeat("9", n) *)
 
 (* ---------------------------------------------------------------- tables *)
 
 Definition val := N.
-
-Fixpoint assoc (k : key) (t : list (key * val)) : option val :=
-  match t with
-  | [] => None
-  | (k', v) :: r => if key_eqb k k' then Some v else assoc k r
-  end.
 
 (* the greatest key (in lexicographic order) among those satisfying [inr]; None when there is none *)
 Fixpoint bestk (inr : key -> bool) (l : list key) : option key :=
@@ -80,12 +78,6 @@ Fixpoint bestk (inr : key -> bool) (l : list key) : option key :=
       | None => if inr k then Some k else None
       | Some m => if inr k && lex_le m k then Some k else Some m
       end
-  end.
-
-Definition get_best (inr : key -> bool) (names : list key) (t : list (key * val)) : option val :=
-  match bestk inr names with
-  | None => None
-  | Some k => assoc k t
   end.
 
 (* ---------------------------------------------------------------- what a block writes (the temp database of one block) *)
@@ -122,7 +114,7 @@ Definition update_last (m : mem) (b : block) : mem :=
 (* ---------------------------------------------------------------- persistent part: tables *)
 
 Record tables := mkTables {
-  t_bmp : list (key * val);                 (* block maps by block height *)
+  t_bmp : list (key * (Z * val));           (* block maps by block height: (height, id) *)
   t_sup : list (key * (Z * Z * val));       (* suffrage proofs by suffrage height: (suffrage height, block height, id) *)
   t_sph : list (key * (Z * Z * val));       (* suffrage proofs by block height *)
   t_stt : list (N * (Z * val));             (* states by state key: (height, id); a later Set/Put overwrites *)
@@ -179,7 +171,7 @@ Definition put_states (t : list (N * (Z * val))) (sts : list (N * Z * val)) : li
 Definition merge_tables (be : backend) (t : tables) (b : block) : tables :=
   let h := b_height b in
   mkTables
-    ((k_bmp be h, b_map b) :: t_bmp t)
+    ((k_bmp be h, (h, b_map b)) :: t_bmp t)
     (match b_proof b with Some (sh, p) => (k_sup be sh, (sh, h, p)) :: t_sup t | None => t_sup t end)
     (match b_proof b with Some (sh, p) => (k_sph be h, (sh, h, p)) :: t_sph t | None => t_sph t end)
     (put_states (t_stt t) (b_states b))
@@ -214,34 +206,23 @@ Definition rds_last {A} (zs : list key) (lo hi : key) (t : list (key * A)) : opt
 
 (* ---------------------------------------------------------------- reopen: New*Permanent = load* from the tables *)
 
-Definition load_last_map (be : backend) (t : tables) : option val :=
+Definition load_last_map (be : backend) (t : tables) : option (Z * val) :=
   match be with
   | Leveldb => ldb_last (t_bmp t)
-  | Redis => rds_last (z_bmp t) (k_bmp Redis 0) (rend (bytes_of redis_prefix_blockmap)) (t_bmp t)
+  | Redis => rds_last (z_bmp t) (k_bmp Redis 0) (rend (bytes_of redis_prefix_blockmap) redis_end_nines_blockmaps) (t_bmp t)
   end.
 
 Definition load_last_proof (be : backend) (t : tables) : option (Z * Z * val) :=
   match be with
   | Leveldb => ldb_last (t_sup t)                      (* greatest suffrage height *)
-  | Redis => rds_last (z_sph t) (k_sph Redis 0) (rend (bytes_of redis_prefix_suffrageproof_by_blockheight)) (t_sph t)
+  | Redis => rds_last (z_sph t) (k_sph Redis 0)
+               (rend (bytes_of redis_prefix_suffrageproof_by_blockheight) redis_end_nines_suffrageproofs) (t_sph t)
                                                         (* greatest block height *)
   end.
 
-(* the last block map's height is part of the decoded map: here carried in the table through its key order;
-   the model keeps it by looking the height up in a parallel table of heights *)
-Definition heights_of (be : backend) (t : tables) (hs : list Z) : list (key * Z) := map (fun h => (k_bmp be h, h)) hs.
-
-Definition reopen (be : backend) (hs : list Z) (d : db) : db :=
+Definition reopen (be : backend) (d : db) : db :=
   let t := d_tab d in
-  let last :=
-    match be with
-    | Leveldb => ldb_last (heights_of be t hs)
-    | Redis => rds_last (z_bmp t) (k_bmp Redis 0) (rend (bytes_of redis_prefix_blockmap)) (heights_of be t hs)
-    end in
-  mkDb (mkMem (match last, load_last_map be t with Some h, Some v => Some (h, v) | _, _ => None end)
-              (load_last_proof be t)
-              (t_pol t))
-       t.
+  mkDb (mkMem (load_last_map be t) (load_last_proof be t) (t_pol t)) t.
 
 (* ---------------------------------------------------------------- reads (isaac.PermanentDatabase) *)
 
@@ -265,7 +246,7 @@ Definition do_read (be : backend) (d : db) (r : read) : ans :=
   | RMap h =>
       match m_last m with
       | None => ANone
-      | Some (lh, lv) => if Z.eqb lh h then AVal lv else of_opt (assoc (k_bmp be h) (t_bmp t))
+      | Some (lh, lv) => if Z.eqb lh h then AVal lv else of_opt (option_map snd (assocp (k_bmp be h) (t_bmp t)))
       end
   | RProof sh =>                                          (* compareWithLastSuffrageProof, then Get *)
       match m_proof m with
@@ -357,7 +338,7 @@ Definition ans_eqb (a b : ans) : bool :=
    observed on the real RedisPermanent and LeveldbPermanent for a list of reads *)
 Definition check_backend (be : backend) (chain : list block) (reopened : bool) (obs : list (read * ans)) : bool :=
   let d := run be chain in
-  let d := if reopened then reopen be (map b_height chain) d else d in
+  let d := if reopened then reopen be d else d in
   forallb (fun ra => ans_eqb (do_read be d (fst ra)) (snd ra)) obs.
 
 Definition check (c : list block * bool * list (read * ans) * list (read * ans)) : bool :=
